@@ -92,7 +92,7 @@ fn cosim<const N: usize>(ctx: &mut Ctx, flags: u8, start: u16, policy: Policy, r
         for e in add_evs { if let Ev::Share { vaddr, paddr, .. } = e { if *vaddr == inb.as_ptr() as usize { addrs[0] = *paddr; } else if *vaddr == outb.as_ptr() as usize { addrs[1] = *paddr; } } }
         let tok = add_evs.iter().find_map(|e| if let Ev::Store { what: 1, val, .. } = e { Some(*val as u128) } else { None }).unwrap_or(0);
         let taddr = add_evs.iter().find_map(|e| if let Ev::Share { vaddr, paddr, .. } = e { if *vaddr != inb.as_ptr() as usize && *vaddr != outb.as_ptr() as usize { Some(*paddr) } else { None } } else { None }).unwrap_or(0);
-        let mut o = vec![0u128, tok]; o.extend(enc_qevents(add_evs, tok));
+        let mut o = vec![0u128, tok]; o.extend(enc_qevents(add_evs, tok).into_iter());
         ctx.tr.line(110, &[taddr as u128, 1, 1, id_in as u128, 16, addrs[0] as u128, id_out as u128, 16, addrs[1] as u128], &o);
         let did_notify = rest.iter().any(|e| matches!(e, Ev::Notify(_)));
         ctx.tr.line(130, &[ev as u128, uf as u128], &[did_notify as u128]);
@@ -123,6 +123,15 @@ pub fn run(ctx: &mut Ctx) {
         ctx.tr.scenario(&format!("c05-directed-n4-f{}", flags)); directed::<4>(ctx, *flags, per);
         ctx.tr.scenario(&format!("c05-directed-n64-f{}", flags)); directed::<64>(ctx, *flags, per / 4);
         if i < 2 { ctx.tr.scenario(&format!("c05-directed-n1024-f{}", flags)); directed::<1024>(ctx, *flags, per / 8); }
+    }
+    // pipelined histories with event-idx: several requests in flight when completions are consumed
+    let nh = ctx.budget(16, 8);
+    for h in 0..nh {
+        let size = [2usize, 4, 8, 16, 64][(h % 5) as usize];
+        let flags = if h % 2 == 0 { 2 } else { 3 };
+        let start = match h % 3 { 0 => 0u16, 1 => 65535 - (h as u16 % 5), _ => ctx.rng.next() as u16 };
+        ctx.tr.scenario(&format!("c05-pipelined-h{}-n{}-f{}-s{}", h, size, flags, start));
+        history_dyn(ctx, size, flags, start, 120, 32);
     }
     let rounds = ctx.budget(12, 4) as usize;
     for flags in [0u8, 2, 3] {
